@@ -385,7 +385,19 @@ struct PmModel {
         // exposed factor M: Z2: B = R . M^T ; Zp: R = B . M   (RU_matrix.h, _reduce_column_by)
         std::vector<SparseVec> Rs, Ms;
         for (int i = 0; i < n; ++i) {
-          if constexpr (Opt::has_vine_update) { Rs.push_back(read_R_by_entries(col_index(i))); Ms.push_back(read_U_by_entries(col_index(i))); }
+          if constexpr (Opt::has_vine_update) {
+            Rs.push_back(read_R_by_entries(col_index(i)));
+            Ms.push_back(read_U_by_entries(col_index(i)));
+            // the rows are permuted lazily, so the entries are probed row by row; an entry left behind in a row that is
+            // no live cell any more (a removed cell) shows as a column that stores more entries than the probes found
+            if constexpr (Opt::column_type != Column_types::HEAP && Opt::column_type != Column_types::VECTOR) {
+              std::size_t nr = 0, nu = 0;
+              for (auto& e : m->get_column(col_index(i), true)) { (void)e; ++nr; }
+              for (auto& e : m->get_column(col_index(i), false)) { (void)e; ++nu; }
+              if (nr != Rs.back().size()) failed.push_back("a column of R stores an entry outside the live rows");
+              if (nu != Ms.back().size()) failed.push_back("a column of U stores an entry outside the live rows");
+            }
+          }
           else { Rs.push_back(read_col(m->get_column(col_index(i), true), failed)); Ms.push_back(read_col(m->get_column(col_index(i), false), failed, false)); }
         }
         for (int i = 0; i < n; ++i) {
